@@ -205,7 +205,7 @@ func (s *c27Scenario) header() string {
 }
 
 func genC27(g *Gen, tier string, w *bufio.Writer) {
-	rounds := 14
+	rounds := 10
 	if tier == "thorough" {
 		rounds = 150
 	}
